@@ -101,6 +101,50 @@ Proof.
   f_equal. unfold total_weight1d. numR. ring.
 Qed.
 
+(** ** every component with the tails of the grid its trapezoid runs over ([vourlaki_q], [tails_on]) *)
+Lemma vourlaki_q_linear Qd (theta : R) s1 s2 w1 W2 sym t2 w2 ab pw gp pc pcp :
+  vourlaki_q Qd theta s1 s2 w1 W2 sym t2 w2 ab pw gp pc pcp
+  = oscale theta (vourlaki_q Qd 1 s1 s2 w1 W2 sym t2 w2 ab pw gp pc pcp).
+Proof. unfold vourlaki_q. apply vourlaki_linear. Qed.
+
+Lemma selection_free_vourlaki_q Qd (theta S : R) xs1 gs1 xs2 gs2 w1 W2 sym t2 w2 ab pw gp pc pcp n1' n2' i1 i2 :
+  length xs1 = n1' -> (0 < n1')%nat -> length w1 = n1' -> (n1' <= length gs1)%nat ->
+  length xs2 = n2' -> (0 < n2')%nat -> (n2' <= length gs2)%nat -> length W2 = n2' -> Forall (fun r => length r = n2') W2 ->
+  length (q1low t2) = n2' -> length (q1high t2) = n2' -> length (q2low t2) = n2' -> length (q2high t2) = n2' ->
+  length w2 = n2' -> pick2 gp gp gs2 = Some (i1, i2) ->
+  vourlaki_q Qd theta {| c1_xs := xs1; c1_gs := gs1; c1_sp := repeat S (length gs1); c1_neu := S |}
+             {| c2_xs := xs2; c2_gs := gs2; c2_S := repeat (repeat S (length gs2)) (length gs2) |}
+             w1 W2 sym t2 w2 ab pw gp pc pcp
+  = Some (theta * S * (total_weight1d xs1 w1 (Qd ab 0 (Some (0 - last xs1 0))) (Qd ab (0 - hd 0 xs1) None) * ((1 - pw) * (1 - pc))
+                       + total_weight2d sym xs2 W2 t2 * ((1 - pw) * pc * (1 - pcp))
+                       + total_weight1d xs2 w2 (Qd ab 0 (Some (0 - last xs2 0))) (Qd ab (0 - hd 0 xs2) None)
+                         * ((1 - pw) * pc * pcp + pw * pc * (1 - pcp))
+                       + (pw * (1 - pc) + pw * pc * pcp))).
+Proof.
+  intros. unfold vourlaki_q, tails_on, neu_hi, del_lo. cbn [c1_xs c2_xs fst snd].
+  erewrite selection_free_vourlaki by eassumption. numR. reflexivity.
+Qed.
+
+(** What taking the tails of the mixed-sign components (m4, m7) from ANOTHER grid does: with selection having no effect the
+    result moves by theta * S * (weight of the mixed-sign components) * (difference of the tail masses) -- i.e. the pdf
+    mass between the bounds of the two grids is dropped or counted twice, unless pchange = 0 or the mixed-sign weights vanish. *)
+Lemma vourlaki_foreign_tails (theta S : R) xs1 gs1 xs2 gs2 w1 wneu1 wdel1 W2 sym t2 w2 wneu2 wdel2 wneu' wdel' pw gp pc pcp n1' n2' i1 i2 r r' :
+  length xs1 = n1' -> (0 < n1')%nat -> length w1 = n1' -> (n1' <= length gs1)%nat ->
+  length xs2 = n2' -> (0 < n2')%nat -> (n2' <= length gs2)%nat -> length W2 = n2' -> Forall (fun r => length r = n2') W2 ->
+  length (q1low t2) = n2' -> length (q1high t2) = n2' -> length (q2low t2) = n2' -> length (q2high t2) = n2' ->
+  length w2 = n2' -> pick2 gp gp gs2 = Some (i1, i2) ->
+  let s1 := {| c1_xs := xs1; c1_gs := gs1; c1_sp := repeat S (length gs1); c1_neu := S |} in
+  let s2 := {| c2_xs := xs2; c2_gs := gs2; c2_S := repeat (repeat S (length gs2)) (length gs2) |} in
+  vourlaki theta s1 s2 w1 wneu1 wdel1 W2 sym t2 w2 wneu2 wdel2 pw gp pc pcp = Some r ->
+  vourlaki theta s1 s2 w1 wneu1 wdel1 W2 sym t2 w2 wneu' wdel' pw gp pc pcp = Some r' ->
+  r' - r = theta * S * ((1 - pw) * pc * pcp + pw * pc * (1 - pcp)) * ((wneu' - wneu2) + (wdel' - wdel2)).
+Proof.
+  intros Hx1 Hn1 Hw1 HN1 Hx2 Hn2 HN2 HW HF H1 H2 H3 H4 Hw2 Hp s1 s2. subst s1 s2.
+  rewrite (selection_free_vourlaki theta S xs1 gs1 xs2 gs2 w1 wneu1 wdel1 W2 sym t2 w2 wneu2 wdel2 pw gp pc pcp n1' n2' i1 i2) by assumption.
+  rewrite (selection_free_vourlaki theta S xs1 gs1 xs2 gs2 w1 wneu1 wdel1 W2 sym t2 w2 wneu' wdel' pw gp pc pcp n1' n2' i1 i2) by assumption.
+  intros [= <-] [= <-]. unfold total_weight1d. numR. ring.
+Qed.
+
 Lemma selection_free_mixture (o : oracle) (theta S : R) xs1 gs1 xs2 gs2 params n1' n2' :
   let s1 := {| c1_xs := xs1; c1_gs := gs1; c1_sp := repeat S (length gs1); c1_neu := S |} in
   let s2 := {| c2_xs := xs2; c2_gs := gs2; c2_S := repeat (repeat S (length gs2)) (length gs2) |} in
